@@ -295,6 +295,17 @@ def eligible(locs, choices, mode):
 
 
 def run_schedules(job):
+    """All executions of one (scenario, trigger combination, shard).  Watchdog: the scheduler detects deadlocks on the locks it knows
+    (sched.patch_locks); a thread blocked at OS level on a lock it does not know would stall the job silently, so the whole job runs
+    under a deadline and a stall is reported as a machinery failure naming the job (never a silent hang, never a verdict)."""
+    try:
+        with common.deadline(3000 if job[2] == "any" else 600):
+            return _run_schedules(job)
+    except common.HangError:
+        raise RuntimeError(f"schedule job {job[:2]} did not complete within its deadline: a thread is blocked on a lock the scheduler does not control") from None
+
+
+def _run_schedules(job):
     name, triggers, mode, maxpre, nrandom, sd, shard, nshards, stride2 = job
     ref = eager_reference(name)
     out = []
